@@ -583,7 +583,9 @@ Definition onPrepareRequest (msg : payload) : M unit :=
       if negb ok then ret tt else
       wo <- WatchOnly ;;
       if wo then ret tt else
-      sendPrepareResponse ;;; checkPrepare
+      s <- get ;;
+      (if IsPrimary s then ret tt else sendPrepareResponse) ;;;    (* the primary's own request, recovered: no response *)
+      checkPrepare
   | _ => panic
   end.
 
@@ -611,7 +613,7 @@ Definition onPrepareResponse (msg : payload) : M unit :=
                          l <- tset (PreparationPayloads s) (p_idx msg) None ;;
                          modify (fun s => s <| PreparationPayloads := l |>) ;;; ret true
                        else ret false
-                   | _ => ret true            (* DPanic "unexpected nil prepare request": returns *)
+                   | _ => panic               (* m.GetPrepareRequest(): type assertion on a payload that is not a request *)
                    end
                | None => ret false
                end) ;;
